@@ -6,19 +6,19 @@ func init() {
 		"the whole statement in the form `no public operation writes memory that existed before it started` (R1 over every public root: receiver, arguments and every frame, grouper or view that shares storage with them stay bit-for-bit unchanged for every sharing history; append on a prestate slice counts as a write).",
 		"nothing is excluded; the verdict rests on the points-to abstraction (allocation-site objects, folded recursive paths, by-value nesting bounded at 5) and on the library summary table.",
 		"New keeps the caller's slices by reference: a caller who later writes them alters the frame (caller's write, outside the property)")
-	prop("C02", []string{"R3", "R4", "R5", "R6", "R7", "R8", "R42", "R40", "R31", "R35", "R59", "R57", "R67", "R74", "R79", "R80", "R98"},
+	prop("C02", []string{"R3", "R4", "R5", "R6", "R7", "R8", "R42", "R40", "R31", "R35", "R59", "R57", "R67", "R74", "R79", "R80", "R98", "R94"},
 		"(i) OR accumulation is sound for every nesting: every store into the shared boolean index is monotone (R3); (ii) every built-in comparison kernel compares with the operator its table key names, cell on the left, column arguments read on the same row, all five types agreeing (R4); (iii) the negation shortcut is the logical complement including nulls, per column type (R5); (iv) kernels read the cell of row i at physical position index[i] and write bit i (R6, R42); (v) kept rows are a subsequence of the frame's rows in order, once each, foreign positions excluded (R7, R8); errors of column kernels reach Err (R31).",
 		"that orFrames' merge selects exactly the union and NotClause exactly the difference (value reasoning; they are in-order subsequences by R8); semantics of in/any_bits/all_bits; int<->float promotion; user predicates.")
 	prop("C03", []string{"R9", "R10", "R7", "R1s", "R6", "R78"},
 		"(i) the result is a permutation of the frame's rows, each whole: the sorter only exchanges elements of a private copy of the index (R9, R1s, R7); (ii) per type the order table encodes Reverse/NullLast exactly as stated and Compare returns the table entry matching the actual relation and nullness of the two cells (R10); comparisons receive physical positions (R6); Less is the lexicographic composition with null-vs-null ties falling through (R10c).",
 		"that quickSort/doPivot/heapSort/insertionSort arrange the index in non-decreasing order of Less: algorithm correctness over all n and tie structures; a mis-sorting change inside those four functions is NOT detected (it is still a permutation).")
-	prop("C04", []string{"R11", "R12", "R10", "R13", "R17", "R6", "R7", "R8", "R40", "R37", "R38", "R54", "R55", "R1g", "R25", "R72", "R93", "R98"},
+	prop("C04", []string{"R11", "R12", "R10", "R13", "R17", "R6", "R7", "R8", "R40", "R37", "R38", "R54", "R55", "R1g", "R25", "R72", "R93", "R98", "R99"},
 		"group indexes contain only rows of the frame (R7) and are private to the call (R1g); an occupied table entry is selected only after equals said so (R11); hash and equality agree incl. signed zeros and NaNs (R12, R10); probe positions are masked by the length of the very table they index (R38); every aggregate value is the aggregation function applied to the group's compact values in frame order, one call per group (R37, R40, R8); result columns are placed consistently and named legally (R13, R17); Columns/Null options are consulted (R25).",
 		"the open-addressing table as an algorithm (that every row is inserted exactly once and found again across growth steps beyond the mask/equality conditions); that sum/min/max/avg/majority compute what their names say.")
-	prop("C05", []string{"R11", "R12", "R10", "R6", "R7", "R8", "R38", "R54", "R55", "R1g", "R25", "R39", "R74", "R76", "R93", "R98"},
+	prop("C05", []string{"R11", "R12", "R10", "R6", "R7", "R8", "R38", "R54", "R55", "R1g", "R25", "R39", "R74", "R76", "R93", "R98", "R99"},
 		"returned rows are input rows, unmodified (R7: first positions come from the index; withIndex shares columns; R1g); each occupied table entry contributes exactly once (R8 on the collection loop); entries are distinct keys (R11) and equal keys share a hash (R12, R10); probing is masked by the table's own length (R38); options are consulted (R25); column names are validated before any success return (R39).",
 		"the open-addressing table as an algorithm (same as C04).")
-	prop("C06", []string{"R6", "R42", "R40", "R53", "R13", "R8", "R1a", "R43", "R68", "R82", "R98"},
+	prop("C06", []string{"R6", "R42", "R40", "R53", "R13", "R8", "R1a", "R43", "R68", "R82", "R98", "R95"},
 		"source and destination use the same physical row, result slices are sized by the column's physical length (R42), user functions run once per row of the frame in frame order (R40), every access goes through the index (R6); the destination replaces an existing column in its position or is appended last for frames however derived (R13); nothing else changes (R1a); FilteredApply restores the original index on the result (R43).",
 		"which built-in a name resolves to; result typing by function signature; zero/null fill of unmatched rows (follows from make's zero values plus R42's sizing; argued, not checked).")
 	prop("C07", []string{"R14", "R15", "R21", "R31", "R53", "R1a", "R1x", "R47", "R13", "R40", "R42", "R6", "R93"},
@@ -53,7 +53,7 @@ func init() {
 	prop("C16", []string{"R32", "R27", "R58"},
 		"necessary conditions only: the 128-bit multiplier tables and layout constants are the ones the algorithm's correctness argument requires, all 618 entries recomputed in math/big (R32); every non-NaN float reaches JSON through AppendFloat64f (R27).",
 		"THE CORE OF THE PROPERTY: digit generation, the three positional layouts, buffer reuse; equality with strconv.FormatFloat over 2^64 inputs is value level.")
-	prop("C17", []string{"R33", "R34", "R19", "R4", "R10", "R5", "R46", "R1r", "R74"},
+	prop("C17", []string{"R33", "R34", "R19", "R4", "R10", "R5", "R46", "R1r", "R74", "R94", "R95"},
 		"the 8-bit encoding cannot overflow into null or wrap (R33, R34, R19); undeclared values are rejected on every construction path (R34: minting is dominated by !strict and the cardinality guard); ordering comparisons and Sort use rank = declared position (R4, R10); filtering a strict column against an undeclared constant is an error (R46); null stays distinct (R5 polarity, R10).",
 		"in/like bitset contents beyond R19's layout and R35.")
 	prop("C18", []string{"R35", "R59", "R57", "R33", "R3", "R42", "R74"},
